@@ -23,6 +23,7 @@ def jobs(tier):
         mk('C08', 'spawned_child_between_handlers/sync', S.spawned_child_between_handlers(True), witnesses=W),
         mk('C08', 'spawned_child_between_handlers/async', S.spawned_child_between_handlers(False), witnesses=W),
         mk('C08', 'read_after_completion', S.read_after_completion(), witnesses=W),
+        mk('C08', 'spawned_late_child', S.spawned_late_child(), witnesses=W),
         mk('C08', 'read_after_completion/par', S.read_after_completion(parallel=True), witnesses=W),
         mk('C08', 'fw/chain2', S.forward_chain(2, topo='chain'), witnesses=W),
         mk('C08', 'fw/chain2/poll', S.forward_chain(2, topo='chain', poll=True), witnesses=W),
